@@ -1,7 +1,7 @@
 (* C14 — simulated valuations are sound lower bounds of the true valuations. Statements only. *)
 From Coq Require Import Arith ZArith QArith List Bool Lia.
 Import ListNotations.
-From SCK Require Import Argsort ElicitM ElicitRun ElicitEval ElicitBS ElicitRules ElicitSpec ElicitSpecProof ElicitFinal ElicitM2Q.
+From SCK Require Import Argsort ElicitM ElicitRun ElicitEval ElicitBS ElicitRules ElicitSpec ElicitSpecProof ElicitFinal ElicitM2Q RootnProof.
 Local Open Scope Z_scope.
 
 (* Setting for the three threshold rules (k-ARV: byq = false, init = 0; lambda-TSF: byq = false, init = 1e-5;
@@ -100,3 +100,40 @@ Theorem C14_m2q_copy_is_lower_bound : forall fixer V P,
   forall q, 0 <= q <= r - 1 -> (Vz fixer V i A <= Vz fixer V i (rkat rk q))%Q.
 Proof. exact m2q_copy_is_lower_bound. Qed.
 Print Assumptions C14_m2q_copy_is_lower_bound.
+
+(* root_n_serial_dictatorship (the subroutine that picks each agent's representative item) on a square profile: every agent is
+   handed an item — the hypothesis 0 <= A < m of the two theorems above always holds there — and no item is handed out more
+   than ceil(sqrt n) times: an item given c >= 1 times satisfied (c-1)^2 < n when it was last given *)
+Theorem C14_rootn_assigns_everyone : forall P : list (list Z),
+  let n := length P in let m := length (nth 0 P []) in
+  m = n -> (1 <= n)%nat -> (forall row, In row P -> length row = m) ->
+  forall i, (i < n)%nat -> 0 <= nth i (rootn_sd P) 0 < Z.of_nat m.
+Proof. exact rootn_sd_item. Qed.
+Print Assumptions C14_rootn_assigns_everyone.
+Theorem C14_rootn_load_bounded : forall P : list (list Z),
+  let n := length P in let m := length (nth 0 P []) in
+  m = n -> (1 <= n)%nat -> (forall row, In row P -> length row = m) ->
+  forall j, (j < m)%nat -> let c := occ (rootn_sd P) j in c = O \/ (pred c * pred c < n)%nat.
+Proof. exact rootn_sd_load. Qed.
+Print Assumptions C14_rootn_load_bounded.
+(* hence, for square profiles, the contents of the Match-TwoQueries row and the lower-bound property hold outright *)
+Theorem C14_m2q_row_contents_square : forall fixer V (P : list (list Z)) eps,
+  let n := length P in let m := length (nth 0 P []) in
+  m = n -> (1 <= n)%nat -> (forall row, In row P -> length row = m /\ strict_rowb row = true) ->
+  forall i, (i < n)%nat -> let rk := rank_list (nth i P []) in let A := nth i (rootn_sd P) 0 in
+  let r := nth (Z.to_nat A) (nth i P []) 0 in
+  forall q, 0 <= q < Z.of_nat m ->
+  nth (Z.to_nat (rkat rk q)) (m2q_row fixer V P eps i) 0%Q =
+  if (q =? 0) then Vz fixer V i (rkat rk 0) else if (q <=? r - 1) then Vz fixer V i A else eps.
+Proof. exact m2q_row_spec_square. Qed.
+Print Assumptions C14_m2q_row_contents_square.
+Theorem C14_m2q_copy_is_lower_bound_square : forall fixer V (P : list (list Z)),
+  let n := length P in let m := length (nth 0 P []) in
+  m = n -> (1 <= n)%nat -> (forall row, In row P -> length row = m /\ strict_rowb row = true) ->
+  forall i, (i < n)%nat -> let rk := rank_list (nth i P []) in let A := nth i (rootn_sd P) 0 in
+  let r := nth (Z.to_nat A) (nth i P []) 0 in
+  (forall j j', (j < m)%nat -> (j' < m)%nat -> nth j (nth i P []) 0 <= nth j' (nth i P []) 0 ->
+     (Vz fixer V i (Z.of_nat j') <= Vz fixer V i (Z.of_nat j))%Q) ->
+  forall q, 0 <= q <= r - 1 -> (Vz fixer V i A <= Vz fixer V i (rkat rk q))%Q.
+Proof. exact m2q_copy_is_lower_bound_square. Qed.
+Print Assumptions C14_m2q_copy_is_lower_bound_square.
